@@ -72,6 +72,13 @@ META = {
         deadline_quick=900, deadline_thorough=3400,
         parts={"pasv": 1},
     ),
+    "C12": dict(
+        rule="ssh-simulator behind the real server, spoken to by a real x/crypto/ssh client over an in-memory duplex connection: 16 credential-set orbit representatives (empty, wildcard, single pairs with empty user/password, overlapping users/passwords, 3-pair sets; thorough: plus all sets of size <=2) x 4 users x all password sequences of length <=3 (a sequence ends at the first accepted password); ldap: all credential sets of size <=2 (thorough 3) over users {root,admin,guest,''} x passwords {root,admin,123456,''} x all bind sequences of length <=2 over the 16 pairs and a third attempt from a 7-pair class alphabet, with the 5 gated operations (delete, add, modify, modify-dn, compare) probed before the first and after every attempt; ftp: all attempt sequences of length <=3 over 16 user/password pairs, all gated commands probed until login, file/directory commands after. Oracle: attempt k succeeds iff its pair is in the set (Go map reference; LDAP anonymous bind = success without login), independent of earlier attempts; one authentication event per attempt with the evaluated user and presented password; gated operations refused until a login succeeded. Distinct = credential sets / first attempts explored; classes show reply codes per gate state.",
+        bounds_quick="ssh 16 sets, ldap sets <=2, sequences <=3",
+        bounds_thorough="ssh +137 sets, ldap sets <=3 with full length-3 sequences",
+        assumptions=COMMON_ASSUME + ["an SSH connection presents one user name with several passwords (x/crypto/ssh client)", "LDAP gates are judged until the first successful non-anonymous bind"],
+        deadline_quick=900, deadline_thorough=3400,
+    ),
 }
 
 NOT_APPLICABLE = {}
